@@ -107,8 +107,8 @@ whole, and the valid entries of a cached head come back whatever their ancestry 
 theorem reload_joins_only_entries_join_accepts (acl : Acl) (id : Nat) (fetch : Nat → OMap) (h : Nat) :
     ∀ e ∈ goodFetch acl id fetch h, acceptable acl.canAppend e = true ∧ e.logId = id := by
   intro e he
-  unfold goodFetch at he
-  obtain ⟨h1, h2⟩ := List.mem_filter.mp he
+  unfold goodFetch goodFetch1 at he
+  obtain ⟨h1, h2⟩ := List.mem_filter.mp (List.mem_filter.mp he).1
   unfold ownFetch at h1
   exact ⟨h2, by simpa using (List.mem_filter.mp h1).2⟩
 
